@@ -590,10 +590,14 @@ def c05_sessions(rng, sid, nscen):
         cfgexp = rng.choice([1, 3, 7200])
         cfg = {"mode": "overlap", "qq0": True, "sessexpiry": cfgexp}
         steps = [connect(9, "obs", 5), connect(8, "pubr", 4)]
+        zero = fam == "matrix" and i % 12 == 5      # DISCONNECT with Session Expiry Interval 0 ends a long-lived session at once
+        if zero:
+            cfgexp = 7200
+            cfg["sessexpiry"] = cfgexp
         if fam == "matrix":
-            ver = rng.choice([5, 5, 4, 3])
-            clean1 = rng.random() < 0.3
-            req = rng.choice([0, 1, 3, 1000]) if ver == 5 else None
+            ver = 5 if zero else rng.choice([5, 5, 4, 3])
+            clean1 = False if zero else rng.random() < 0.3
+            req = (1000 if zero else rng.choice([0, 1, 3, 1000])) if ver == 5 else None
             E = (0 if clean1 else cfgexp) if ver != 5 else min(req, cfgexp)
             kw = {"expiry": req} if ver == 5 else {}
             steps.append(connect(1, "c", ver, clean=clean1, **kw))
@@ -602,12 +606,16 @@ def c05_sessions(rng, sid, nscen):
             steps.append(BARRIER)
             if rng.random() < 0.4:
                 steps.append({"op": "sleep", "ms": rng.choice([1500, 3500])})     # a connection that lasts longer than the expiry interval
-            end = rng.choice(["disconnect", "abort", "terminate", "newexp"] if ver == 5 else ["disconnect", "abort", "terminate"])
+            end = rng.choice(["disconnect", "abort", "terminate", "newexp", "newexp"] if ver == 5 else ["disconnect", "abort", "terminate"])
+            soon = False
+            if zero:
+                end = "newexp"
             if end == "disconnect":
                 steps.append({"op": "disconnect", "k": 1})
             elif end == "newexp" and E > 0:
-                ne = rng.choice([0, 1, 3, 1000])     # 0: the DISCONNECT ends the session
+                ne = 0 if zero else rng.choice([0, 1, 3, 1000])     # 0: the DISCONNECT ends the session
                 steps.append({"op": "disconnect", "k": 1, "expiry": ne})
+                soon = ne == 0 and E >= 3            # ... at once: come back long before the interval it had would have elapsed
                 E = ne
             elif end == "terminate":
                 steps.append({"op": "terminate", "cid": "c"})
@@ -618,6 +626,8 @@ def c05_sessions(rng, sid, nscen):
             steps.append(api("s/t", 1, "offline"))
             cands = [200, 1600, 2400, 3600, 4600]
             w = rng.choice(_away(cands, [E * 1000]) or [200])
+            if soon:
+                w = 200
             steps.append({"op": "sleep", "ms": w})
             steps.append(connect(2, "c", ver, clean=False, **({"expiry": 1000} if ver == 5 else {})))
             steps.append(BARRIER)
